@@ -514,4 +514,203 @@ theorem rtp_leaf (S : Schema) (cs : KeyCase) (fs : List FieldD) (idx : Nat) (f :
       · simp
       · intro j hq; cases hq
 
+/-! ### lists and dicts of leaves -/
+
+theorem toPyDictMapVals_raw (S : Schema) (cs : KeyCase) (incl : Bool) : ∀ (vs : List Val), (∀ x ∈ vs, isMsgVal x = false) →
+    toPyDictMapVals S cs incl vs = .ok (rawJList vs)
+  | [], _ => by rw [toPyDictMapVals, rawJList]
+  | x :: xs, h => by
+    have hx := h x (by simp)
+    have ih := toPyDictMapVals_raw S cs incl xs (fun y hy => h y (by simp [hy]))
+    rw [rawJList]
+    cases x <;> first
+      | (simp [isMsgVal] at hx; done)
+      | (rw [toPyDictMapVals, ih]; · rfl
+         all_goals (intros; contradiction))
+
+/-- repeated scalars -/
+theorem rtp_list_flat (S : Schema) (cs : KeyCase) (fs : List FieldD) (idx : Nat) (f : FieldD) (hid sel : Bool) (xs : List Val)
+    (hp : FP f) (hs : HS f hid sel)
+    (hnu : ¬ ((f.ty == PType.message) = true ∧ f.wraps = Option.none ∧ ∃ c, f.kind = .user c))
+    (h : slotOk' S f hid sel (.list xs) = true) : SlotRTP S cs fs idx f hid sel (.list xs) := by
+  obtain ⟨hh, hsel, hr, hmap, ho, hw, hit⟩ := list_common S f hid sel xs hp.fj hs h
+  subst hh; subst hsel
+  have hm : (f.ty == PType.message) = false := by
+    cases hm : (f.ty == PType.message) with
+    | false => rfl
+    | true => exact absurd ⟨hm, hw, hp.msg_rep hm hw hr⟩ hnu
+  have hleaf := itemsOk_leaf S f xs hnu hit
+  have hl2 : ∀ x ∈ xs, isLeafVal x = true ∧ x ≠ .none := fun x hx => leafOk_leaf f x (hleaf x hx)
+  have hatoms : ∀ x ∈ xs, dAtom x = true := fun x hx => isLeafVal_dAtom x (hl2 x hx).1
+  have hjrt : jrt S [] cs (.list xs) = .list xs := by rw [jrt_list, jrtList_atoms S [] cs xs hatoms]
+  apply slotRTP_mk S cs fs idx f false false (.list xs) (!xs.isEmpty) (rawJ (.list xs))
+  · rw [toDictSlot]
+    simp only [Bool.false_eq_true, if_false, hm, hmap, hr, if_true, Bool.or_false, Bool.not_true, defKind_rep f hr,
+      eqDefault_list]
+    cases xs with
+    | nil => rfl
+    | cons x xs => simp only [List.isEmpty_cons, Bool.not_false, if_true]; (repeat' split) <;> rfl
+  · rw [toPyDictSlot]
+    simp only [Bool.false_eq_true, if_false, hm, hmap, Bool.or_false, defKind_rep f hr, eqDefault_list]
+  · intro _ st hf hst
+    rw [hjrt, rawJ_list, fromPyField]
+    simp only [hm, hmap, Bool.false_and, Bool.false_eq_true, if_false, unRaw, unRawList_rawJList_leaf xs hl2,
+      Except.bind, bind]
+    rfl
+
+/-- `map<string, scalar>` -/
+theorem rtp_dict_flat (S : Schema) (cs : KeyCase) (fs : List FieldD) (idx : Nat) (f : FieldD) (hid sel : Bool) (ks vs : List Val)
+    (hp : FP f) (hs : HS f hid sel) (hv : (f.mapV == PType.message) = false)
+    (h : slotOk' S f hid sel (.dict ks vs) = true) : SlotRTP S cs fs idx f hid sel (.dict ks vs) := by
+  obtain ⟨hh, hsel, hty, hks, hvs⟩ := dict_common S f hid sel ks vs hp.fj hs h
+  subst hh; subst hsel
+  have hmap : (f.ty == PType.map) = true := by simp [hty]
+  have hm : (f.ty == PType.message) = false := by rw [hty]; rfl
+  have hraw : ∀ x ∈ vs, rawOk x = true := fun x hx =>
+    valOfType_rawOk _ x (mapValsOk_scalar S f vs hv hvs x hx) (hp.fj.map_vb hmap)
+  have hl2 : ∀ x ∈ vs, isLeafVal x = true ∧ x ≠ .none := fun x hx => by
+    have := hraw x hx
+    cases x <;> simp [rawOk] at this <;> exact ⟨rfl, by intro e; cases e⟩
+  have hnm : ∀ x ∈ vs, isMsgVal x = false := fun x hx => by
+    have := hraw x hx
+    cases x <;> simp [rawOk] at this <;> rfl
+  have hatoms : ∀ x ∈ vs, dAtom x = true := fun x hx => isLeafVal_dAtom x (hl2 x hx).1
+  have hjrt : jrt S [] cs (.dict ks vs) = .dict ks vs := by rw [jrt_dict, jrtList_atoms S [] cs vs hatoms]
+  apply slotRTP_mk S cs fs idx f false false (.dict ks vs) (!ks.isEmpty) (.obj (ks.map keyJ) (rawJList vs))
+  · rw [toDictSlot]
+    simp only [Bool.false_eq_true, if_false, hmap, if_true, Bool.or_false]
+    split <;> simp_all
+  · rw [toPyDictSlot]
+    simp only [Bool.false_eq_true, if_false, hmap, if_true, Bool.or_false, toPyDictMapVals_raw S cs false vs hnm,
+      Except.bind, bind]
+  · intro _ st hf hst
+    rw [hjrt, fromPyField]
+    simp only [hm, hmap, hv, Bool.and_false, Bool.false_eq_true, if_false, unRaw, unRawList_rawJList_leaf vs hl2,
+      Except.bind, bind, keyV_keyJ ks hks]
+    rfl
+
+/-! ### repeated / map / singular sub-messages, given the round trip of the nested bodies -/
+
+theorem toPyDictList_length (S : Schema) (cs : KeyCase) (incl : Bool) : ∀ (xs : List Val) (items : List PVal),
+    toPyDictList S cs incl xs = .ok items → items.length = xs.length
+  | [], items, h => by rw [toPyDictList] at h; injection h with h; subst h; rfl
+  | x :: xs, items, h => by
+    cases x <;> first
+      | (rw [toPyDictList] at h
+         · cases hk : toPyDictKVs S cs incl _ _ 0 _ with
+           | error e => rw [hk] at h; cases h
+           | ok kvs =>
+             rw [hk] at h
+             simp only [Except.bind, bind] at h
+             cases hr : toPyDictList S cs incl xs with
+             | error e => rw [hr] at h; cases h
+             | ok js =>
+               rw [hr] at h
+               injection h with h; subst h
+               simp [toPyDictList_length S cs incl xs js hr])
+      | (rw [toPyDictList] at h
+         · cases h
+         all_goals (intros; contradiction))
+
+/-- repeated user messages -/
+theorem rtp_list_user (S : Schema) (cs : KeyCase) (fs : List FieldD) (idx : Nat) (f : FieldD) (hid sel : Bool) (xs : List Val)
+    (c : Nat) (hp : FP f) (hs : HS f hid sel) (hm : (f.ty == PType.message) = true) (hk : f.kind = .user c)
+    (h : slotOk' S f hid sel (.list xs) = true) (items : List PVal)
+    (hitems : toPyDictList S cs false xs = .ok items)
+    (hdec : fromPyItems S c items = .ok (jrtList S [] cs xs)) : SlotRTP S cs fs idx f hid sel (.list xs) := by
+  obtain ⟨hh, hsel, hr, hmap, ho, hw, hit⟩ := list_common S f hid sel xs hp.fj hs h
+  subst hh; subst hsel
+  have hlen := toPyDictList_length S cs false xs items hitems
+  have hemp : items.isEmpty = xs.isEmpty := by cases xs <;> cases items <;> simp_all
+  have hg := hp.msg_grp hm
+  apply slotRTP_mk S cs fs idx f false false (.list xs) (!xs.isEmpty) (.arr items)
+  · rw [toDictSlot]
+    simp only [Bool.false_eq_true, if_false, hm, if_true, hw, Option.isSome_none, hr, hk, Bool.or_false,
+      toDictList_isEmpty]
+    split <;> simp_all
+  · rw [toPyDictSlot]
+    simp only [Bool.false_eq_true, if_false, hm, if_true, hw, Option.isSome_none, hr, hitems, Except.bind, bind,
+      Bool.or_false, hemp]
+  · intro _ st hf hst
+    have hd : defaultOf S f = .list [] := by unfold defaultOf; rw [defKind_rep f hr]; rfl
+    rw [jrt_list, fromPyField]
+    simp only [hm, if_true, getAttr_fresh S fs st idx f hf hg ho hst, hd, Except.bind, bind, hw, Option.isSome_none,
+      Bool.false_eq_true, if_false, hk, hdec, List.nil_append]
+    rw [← hd, setAttr_over S fs st idx f hf]
+
+/-- `map<string, Msg>` -/
+theorem rtp_dict_user (S : Schema) (cs : KeyCase) (fs : List FieldD) (idx : Nat) (f : FieldD) (hid sel : Bool) (ks vs : List Val)
+    (c : Nat) (hp : FP f) (hs : HS f hid sel) (hv : (f.mapV == PType.message) = true) (hk : f.mapVKind = .user c)
+    (h : slotOk' S f hid sel (.dict ks vs) = true) (hkeys : (ks.map keyJ).Nodup) (items : List PVal)
+    (hitems : toPyDictMapVals S cs false vs = .ok items)
+    (hdec : fromPyItems S c items = .ok (jrtList S [] cs vs))
+    (hjl : (jrtList S [] cs vs).length = vs.length) : SlotRTP S cs fs idx f hid sel (.dict ks vs) := by
+  have h0 := h
+  obtain ⟨hh, hsel, hty, hks, hvs⟩ := dict_common S f hid sel ks vs hp.fj hs h
+  subst hh; subst hsel
+  have hmap : (f.ty == PType.map) = true := by simp [hty]
+  have hm : (f.ty == PType.message) = false := by rw [hty]; rfl
+  have hg := hp.fj.map_grp hmap
+  have ho := hp.fj.map_opt hmap
+  have hr := hp.fj.map_rep hmap
+  have hkl : ks.length = vs.length := by
+    rw [slotOk_dict] at h0
+    simp only [Bool.and_eq_true, beq_iff_eq] at h0
+    exact h0.1.1.2
+  apply slotRTP_mk S cs fs idx f false false (.dict ks vs) (!ks.isEmpty) (.obj (ks.map keyJ) items)
+  · rw [toDictSlot]
+    simp only [Bool.false_eq_true, if_false, hmap, if_true, Bool.or_false]
+    split <;> simp_all
+  · rw [toPyDictSlot]
+    simp only [Bool.false_eq_true, if_false, hmap, if_true, Bool.or_false, hitems, Except.bind, bind]
+  · intro _ st hf hst
+    have hd : defaultOf S f = .dict [] [] := by unfold defaultOf; rw [defKind_map f hr hmap]; rfl
+    have hins := dictInsertAll_new ks (jrtList S [] cs vs) [] [] rfl (by rw [hjl, hkl]) (by intro k _ k0 hk0; cases hk0)
+      (str_keys_pairwise ks hks hkeys)
+    rw [jrt_dict, fromPyField]
+    simp only [hm, hmap, hv, Bool.and_self, Bool.false_eq_true, if_false, if_true,
+      getAttr_fresh S fs st idx f hf hg ho hst, hd, Except.bind, bind, hk, hdec, keyV_keyJ ks hks, hins, List.nil_append]
+    rw [← hd, setAttr_over S fs st idx f hf]
+
+/-- a singular sub-message -/
+theorem rtp_msg_slot (S : Schema) (cs : KeyCase) (fs : List FieldD) (idx : Nat) (f : FieldD) (hid sel : Bool) (c : Nat)
+    (sl : List Val) (ow : Bool) (unk : Bytes) (cur : List (Option Nat)) (hp : FP f) (hs : HS f hid sel)
+    (h : slotOk' S f hid sel (.msg c sl ow unk cur) = true) (hrt : MsgRTP S cs c sl cur) :
+    SlotRTP S cs fs idx f hid sel (.msg c sl ow unk cur) := by
+  rw [slotOk_msg] at h
+  simp only [Bool.and_eq_true, Bool.not_eq_true', beq_iff_eq, Option.isNone_iff_eq_none] at h
+  obtain ⟨⟨⟨⟨⟨hh, hty⟩, hw⟩, hr⟩, hk⟩, hbody⟩ := h
+  obtain ⟨hunk, _, _, _⟩ := bodyOk_spec S c sl unk cur hbody
+  subst hh; subst hunk
+  have hm : (f.ty == PType.message) = true := by simp [hty]
+  have hg := hp.msg_grp hm
+  have ho := hp.msg_opt hm hw
+  have hsel : sel = false := (hs.1 hg).2
+  subst hsel
+  obtain ⟨kvs, hkvs, hfrom⟩ := hrt
+  have hmap : (f.ty == PType.map) = false := by rw [hty]; rfl
+  have hdk : f.defKind = .msg c := by rw [defKind_msg f hr hmap (by simp [ho, hw]) hm, hk]; rfl
+  apply slotRTP_mk S cs fs idx f false false (.msg c sl ow [] cur)
+    (ow || !eqDefault S f.defKind (.msg c sl ow [] cur)) (mkObj kvs)
+  · rw [toDictSlot]
+    simp only [Bool.false_eq_true, if_false, hm, hw, hr, Option.isNone_none, Bool.not_false, Bool.and_self, if_true,
+      Bool.or_false, ho]
+    cases ow <;> (split <;> simp_all)
+  · rw [toPyDictSlot]
+    simp only [Bool.false_eq_true, if_false, hm, hw, hr, Option.isNone_none, Bool.not_false, Bool.and_self, if_true,
+      Bool.or_false, hkvs, Except.bind, bind]
+    cases ow <;> (split <;> simp_all)
+  · intro _ st hf hst
+    have hd : defaultOf S f = fresh S c := by unfold defaultOf; rw [hdk]; rfl
+    rw [jrt_msg, mkObj, fromPyField]
+    simp only [hm, if_true, getAttr_fresh S fs st idx f hf hg ho hst, hd, fresh, Except.bind, bind, hw, Option.isSome_none,
+      Bool.false_eq_true, if_false]
+    have hfrom' := hfrom
+    unfold freshOn at hfrom'
+    rw [hfrom']
+    simp only [MState.toVal]
+    have := setAttr_over S fs st idx f hf (fresh S c) (.msg c (jrtSlots S [] cs (fieldsOf S c) cur 0 sl) true [] cur)
+    unfold fresh at this
+    rw [this]
+
 end Bp
